@@ -30,13 +30,13 @@ namespace {
 
 enum OwnOp { C27_SPLIT = 300, C27_FILL, C27_CHAIN, C27_FANOUT, C27_MERGE, C27_TRUC, C27_DUST, C27_NOPS_END };
 
-constexpr int kNTrucModes = 11;
-constexpr int kNDustModes = 11;
+constexpr int kNTrucModes = 12;
+constexpr int kNDustModes = 12;
 const int64_t kRate[8] = {0, 100, 150, 500, 1000, 3000, 10000, 50000}; // sat per 1000 vB
 const char* kTrucModeNames[kNTrucModes] = {"sibling(high fee)", "grandchild", "non-v3 child", "second unconfirmed parent", "oversize child", "package child with mempool+package parent",
-                                           "sibling that also conflicts with the child", "sibling as 1-tx package", "v3 child of non-v3 parent", "package with two v3 parents", "two successive siblings"};
+                                           "sibling that also conflicts with the child", "sibling as 1-tx package", "v3 child of non-v3 parent", "package with two v3 parents", "two successive siblings", "sibling whose only direct conflict is an unrelated transaction"};
 const char* kDustModeNames[kNDustModes] = {"package parent+sweeping child", "child does not sweep", "prioritised dusty parent", "second child not sweeping", "replace sweeping child by non-sweeping",
-                                           "replace sweeping child by sweeping", "dusty tx with fee, alone", "two dust outputs", "prioritised +x then -x", "zero-fee dusty parent alone, then package", "child with own dust and fee"};
+                                           "replace sweeping child by sweeping", "dusty tx with fee, alone", "two dust outputs", "prioritised +x then -x", "zero-fee dusty parent alone, then package", "child with own dust and fee", "fee-paying dusty parent prioritised by minus its fee"};
 
 std::string Describe(const Op& op)
 {
@@ -678,6 +678,19 @@ public:
             ms.SubmitPackage({P2, C3}, false, PS_CHILD_WITH_PARENTS);
             break;
         }
+        case 11: {
+            // second child of P that also double-spends the input of an UNRELATED mempool transaction X: its direct conflicts are {X}, not C1
+            if (conf.empty()) break;
+            Sp cz = Take(conf, r);
+            CTransactionRef X = ms.MakeTx({cz}, EqualOuts(r, cz.coin.value, 1), 1000, 0, 2, 0, {}, SigDefect::NONE, TS_SIMPLE);
+            if (!Valid(ms.SubmitTx(X, false, TS_SIMPLE))) break;
+            std::vector<Sp> ins{OutOf(P, 1), cz};
+            CTransactionRef C2 = ms.MakeTx(ins, EqualOuts(r, ms.InputSum(ins), 1), std::max<int64_t>(rt, 1000) * 4 + 3000, 0, 3, 0, {}, SigDefect::NONE, TS_TRUC);
+            ms.SubmitTx(C2, false, TS_TRUC);
+            ctx.probe("truc_sibling_conflicting_with_unrelated_tx_submitted");
+            if (have_c1 && ms.pool().exists(C2->GetHash()) && !ms.pool().exists(C1->GetHash())) ctx.probe("truc_sibling_evicted");
+            break;
+        }
         case 6: {
             std::vector<Sp> ins{OutOf(P, 0), OutOf(P, 1)};
             CTransactionRef C2 = ms.MakeTx(ins, EqualOuts(r, ms.InputSum(ins), 1), rt, 0, 3, 0, {}, SigDefect::NONE, TS_TRUC);
@@ -720,7 +733,7 @@ public:
         if (mode == 7) douts.insert(douts.begin() + 1, CTxOut((CAmount)r.below(200), Keys().Spk(SK::P2TR, 1))); // second dust output
         if (mode == 3 && version == 2) douts.push_back(StdOut(r, third));
         douts.push_back(StdOut(r, 0));
-        CTransactionRef D = ms.MakeTx({coin}, douts, 0, 0, version, 0, {}, SigDefect::NONE, TS_DUSTY_PARENT);
+        CTransactionRef D = ms.MakeTx({coin}, douts, mode == 11 ? 1000 : 0, 0, version, 0, {}, SigDefect::NONE, TS_DUSTY_PARENT);
         const uint32_t iA = mode == 7 ? 2 : 1;
         std::vector<Sp> kin{OutOf(D, 0), OutOf(D, iA)};
         if (mode == 7) kin.push_back(OutOf(D, 1));
@@ -738,6 +751,15 @@ public:
                 ms.pool().PrioritiseTransaction(D->GetHash(), -d);
                 ctx.evf("prioritise %s %+ld", Short(D->GetHash()).c_str(), (long)-d);
             } else if (dval < thr) ctx.probe("prioritised_dusty_parent_submitted");
+        }
+        if (mode == 11) {
+            // the parent pays a real base fee; a prioritisation of exactly minus that fee makes its MODIFIED fee zero
+            CAmount outs = 0;
+            for (auto& o : D->vout) outs += o.nValue;
+            const CAmount base_fee = coin.coin.value - outs;
+            ms.pool().PrioritiseTransaction(D->GetHash(), -base_fee);
+            ctx.evf("prioritise %s %+ld (minus its base fee)", Short(D->GetHash()).c_str(), (long)-base_fee);
+            if (dval < thr && base_fee > 0) ctx.probe("fee_paying_dusty_parent_with_cancelling_prioritisation_submitted");
         }
         if (mode == 9) ms.SubmitTx(D, false, TS_DUSTY_PARENT);
         ms.SubmitPackage({D, K}, false, PS_CPFP);
